@@ -110,6 +110,12 @@ WithDuplicates ==
     \cup {G(t, <<DupPath(1, 3, at), PathK(5, 2)>>) : t \in {"MultiLineString", "Polygon"}, at \in 1..3}
     \cup {G(t, <<PathK(1, 2), DupPath(4, 2, at)>>) : t \in {"MultiLineString", "Polygon"}, at \in 1..2}
     \cup {G("MultiPolygon", << <<DupPath(2, 3, at)>>, <<PathK(6, 3), DupPath(1, 1, 1)>> >>) : at \in 1..3}
+(* closed lines: a line string (or a member) whose last vertex is its first one is still a line string, of any length *)
+ClosedPath(b, n) == PathK(b, n) \o <<PathK(b, n)[1]>>
+ClosedLines ==
+    {G("LineString", ClosedPath(b, n)) : b \in {0, 3}, n \in 1..5}
+    \cup {G("MultiLineString", <<ClosedPath(1, n), PathK(6, 2)>>) : n \in 2..4}
+    \cup {G("MultiLineString", <<ClosedPath(2, 3)>>), G("MultiPoint", ClosedPath(0, 3))}
 (* the largest finite magnitudes of both signs in one geometry (ids 9 and 11: +/- the largest finite float64; the extent of
    such a geometry is not a finite number although every coordinate is), on either axis, within a member and across members *)
 Extremes ==
